@@ -977,6 +977,7 @@ class Handle:
             self.mc = MetadorContainer(IH5Record(self.path, "w"))
         self.dirty = True  # something written since the last patch boundary (IH5)
         self.n_reopen = 0
+        self.watchers = {}  # path -> long-lived node wrapper used only for reading (see drivers/c07.py)
         self.held = {}  # path -> node.meta handle kept across consecutive attach/detach operations (as user code holding `m = node.meta` does)
 
     @property
@@ -1102,6 +1103,7 @@ def apply_cop(h: Handle, op, timeout: float = OP_TIMEOUT_S):
             h.dirty = True
         if kind not in ("attach", "detach"):
             h.held.clear()  # handles are only reused while nothing else happened to the container
+            h.watchers.clear()
         return ("ok", None, "")
     except OpTimeout:
         return ("hang", None, "")
@@ -1109,6 +1111,7 @@ def apply_cop(h: Handle, op, timeout: float = OP_TIMEOUT_S):
         h.dirty = True
         if kind not in ("attach", "detach"):
             h.held.clear()
+            h.watchers.clear()
         return ("err", type(e).__name__, str(e)[:200])
 
 
